@@ -78,6 +78,7 @@ class Repo:
         self.funcs: Dict[str, Func] = {}
         self.classes: Dict[str, ast.ClassDef] = {}
         self.inventory: Dict[str, int] = {}
+        self.desugared: Dict[str, int] = {}
         self._load()
 
     # ------------------------------------------------------------------ load
@@ -93,6 +94,16 @@ class Repo:
                 tree = ast.parse(src, filename=path)
             except SyntaxError as e:  # the tree does not compile
                 raise AnalysisError(f"syntax error in {path}: {e}")
+            from .desugar import normalise
+            from .inline import inline_module
+            from .tables import KNOWN_FUNCS
+            for k_, v_ in normalise(tree).items():
+                self.desugared[k_] = self.desugared.get(k_, 0) + v_
+            before = dict(self.desugared)
+            inline_module(tree, fn[:-3], KNOWN_FUNCS, self.desugared)
+            if self.desugared != before:
+                for k_, v_ in normalise(tree).items():
+                    self.desugared[k_] = self.desugared.get(k_, 0) + v_
             m = Module(fn[:-3], path, f"{PKG}/{fn}", tree, src)
             self.modules[m.name] = m
             self._imports(m)
